@@ -24,6 +24,8 @@ for p in sorted((TOOLS / "props").glob("C*.py")):
     spec = importlib.util.spec_from_file_location("p_" + p.stem, p)
     m = importlib.util.module_from_spec(spec)
     spec.loader.exec_module(m)
+    if hasattr(m, "prebuild"):
+        m.prebuild()
     fams[m.FAMILY] = (getattr(m, "HARNESS_FLAGS", ()), getattr(m, "HARNESS_LIBS", ("-lcurl", "-lpthread")))
 implbuild.build_lib()
 print(f"impl lib built {time.time() - t0:.0f}s")
